@@ -135,6 +135,9 @@ def ret_of(op, i):
     value (0, None, '', [], 0.0, False) — results are results, whatever their truth value"""
     if op.get('ret') == 'falsy' and i % 2 == 0:
         return FALSY[(i // 2) % len(FALSY)]
+    if op.get('ret') == 'odd_strings' and i % 2 == 0:
+        # short control-character strings are strings like any other
+        return ['\0', '\1', '\2', '', '\0\0'][(i // 2) % 5]
     return value_of(i)
 
 
